@@ -1,6 +1,6 @@
 (* C29 — cover completeness for target x86_64: reflection of the closure check on the regenerated table *)
 From Coq Require Import String List.
-From PV Require Import Spec.BurgCoverSpec Spec.IRTrees Spec.C29Known Model.BurgCover Proofs.C29_cover Gen.Tab_burg_x86_64.
+From PV Require Import Spec.BurgCoverSpec Spec.IRTrees Spec.C29Known Model.BurgCover Model.C29Synth Proofs.C29_cover Gen.Tab_burg_x86_64.
 Import ListNotations.
 Local Open Scope string_scope.
 
@@ -10,3 +10,7 @@ Proof. vm_compute. reflexivity. Qed.
 Theorem cover_complete_x86_64 : forall t,
   in_lang (irtrees desc_x86_64 excl_x86_64) "S" t -> covers (usable assume_x86_64 rules_x86_64) t "stm".
 Proof. exact (closure_ok_complete _ _ _ _ closure_x86_64). Qed.
+
+(* the synthesized rules (UND<ty>, CALL, ASM) produce registers of the class the target maps the type to *)
+Lemma synth_classes_x86_64 : synth_bad desc_x86_64 clsnt_x86_64 synth_x86_64 = [] /\ synth_complete desc_x86_64 synth_x86_64 = true.
+Proof. split; vm_compute; reflexivity. Qed.
